@@ -474,7 +474,7 @@ Lemma props_main k2 s3 : Forall byte s3 -> props_nobit (Z.to_nat v) s3 ->
   exists st l' k' s' h' m',
     (exists sB, bsE prog_env cs_props_seq (s6 bv o rf rp fo po so h v k2 s3 blkV newbV m2) (OBreak sB) /\ tl_ok st sB l' k' s' h' m') /\
     prefix_of m2 m' /\
-    ((st = SBDF_OK /\ c_so l' = VCell L 0 /\ releasable bv o h h' m' /\ props_end (Z.to_nat v) s3 = Some s' /\ Forall byte s')
+    ((st = SBDF_OK /\ c_so l' = VCell L 0 /\ releasable bv o h h' m' /\ props_end (Z.to_nat v) s3 = Some s' /\ Forall byte s' /\ v <= 134217727)
      \/ (st < 0 /\ c_so l' = so /\ exists j, h' = h ++ nones j)) /\
     (k2 < 0 -> st = props_st (Z.to_nat v) s3 /\ (st = SBDF_OK -> k' = k2)).
 Proof.
@@ -633,7 +633,7 @@ Proof.
     + eexists. split; [exact BODY|]. unfold tl_ok, cs_tail. cbn [fbody prog_sbdf_cs_read]. unl.
       eapply bsE_seq; [eapply bsE_if; [evl; reflexivity|reflexivity|]; eapply bsE_expr; evl; reflexivity|].
       eapply bsE_return. evl. reflexivity.
-    + split; [reflexivity|]. split; [reflexivity|]. split; [|split; [exact PE|exact PBy]].
+    + split; [reflexivity|]. split; [reflexivity|]. split; [|split; [exact PE|split; [exact PBy|lia]]].
       exists HNEW. split; [reflexivity|]. split; [unfold HNEW; cbn [List.length]; lia|exact DGx].
   - (* a property could not be read: everything is released *)
     exists st. eexists (Build_crl _ _ _ _ _ _ _ _ _ _). do 4 eexists. split; [|split; [exact Pf|split; [right|intros X; assert (EkB : kB = k2) by (unfold kB, kA, next_fail; destruct (0 <? k2) eqn:E0; [lia|]; rewrite E0; reflexivity); destruct (R8 ltac:(lia)) as (Q1 & Q2); split; [exact Q1|intros Y; unfold SBDF_OK in Y; lia]]]].
@@ -683,7 +683,7 @@ Theorem cs_read_full_source rf rp fo po k sx m h : Forall byte sx ->
   exists f0, forall f, (f0 <= f)%nat -> exists st fin,
     callC prog_env f prog_sbdf_cs_read [VPtr rf fo; VPtr rp po] m k sx h = OReturn (VInt st) fin /\ prefix_of m (inb fin) /\
     ((st = SBDF_OK /\ lookup "*out" (vars fin) = Some (VCell (List.length h) 0) /\
-        (exists s1 va s2 v s3 s', sec_expect SBDF_COLUMNSLICE_SECTIONID sx = Ok (tt, s1) /\ Va.va_read false None s1 = Ok (va, s2) /\ read_int32 false s2 = Ok (v, s3) /\ 0 <= v /\
+        (exists s1 va s2 v s3 s', sec_expect SBDF_COLUMNSLICE_SECTIONID sx = Ok (tt, s1) /\ Va.va_read false None s1 = Ok (va, s2) /\ read_int32 false s2 = Ok (v, s3) /\ 0 <= v <= 134217727 /\
                                   props_end (Z.to_nat v) s3 = Some s' /\ lookup strm_var (vars fin) = Some (VBytes s')) /\
         exists hnew, lookup cells_var (vars fin) = Some (VHeap (h ++ hnew)) /\ (1 <= List.length hnew)%nat /\
           (* one sbdf_cs_destroy releases everything the read allocated *)
@@ -699,7 +699,7 @@ Proof.
   destruct (bsE_sound _ _ _ _ B) as (f0 & F). exists f0. intros f Hf. exists st. eexists. split; [apply F; exact Hf|]. split; [exact Pf|]. split; [|exact (fun H => proj1 (CST H))].
   destruct l'. cbv [ImpFactsCsRead.c_so] in Out.
   destruct Out as [(-> & -> & (hnew & -> & Hn & D) & s1 & va & s2 & v & s3 & E1 & E2 & E3 & E4 & E5 & _)|(Hn & -> & j & ->)].
-  - left. split; [reflexivity|]. split; [reflexivity|]. split; [exists s1, va, s2, v, s3, s'; repeat split; assumption|].
+  - left. split; [reflexivity|]. split; [reflexivity|]. split; [exists s1, va, s2, v, s3, s'; repeat split; first [assumption|lia]|].
     exists hnew. split; [reflexivity|]. split; [exact Hn|].
     intros k2 s2'. pose proof (D h [] m' k2 s2' eq_refl (Z.le_refl _)) as D2. rewrite !app_nil_r in D2. destruct (bsE_sound _ _ _ _ D2) as (f1 & F1). exists f1. intros g Hg.
     eexists. split; [apply F1; exact Hg|]. split; reflexivity.
